@@ -141,7 +141,7 @@ Lemma fxmul_spec af bf rf a b : wf af -> wf bf -> wf rf -> enc af a -> enc bf b 
 Proof.
   intros Ha Hb Hr Ea Eb Hlow Hwin. unfold mul_low in *. unfold enc in *.
   destruct (wf_width _ Ha) as [Hwa _], (wf_width _ Hb) as [Hwb _], (wf_width _ Hr) as [Hwr _].
-  unfold fxmul. cbv zeta. destruct (Z.ltb_spec (ffrac af + ffrac bf - ffrac rf) 0) as [Hc|_]; [lia|]. f_equal.
+  unfold fxmul, fxmul_v, mul_pw, fxmul_w. cbv zeta iota. destruct (Z.ltb_spec (ffrac af + ffrac bf - ffrac rf) 0) as [Hc|_]; [lia|]. f_equal.
   set (low := ffrac af + ffrac bf - ffrac rf) in *.
   rewrite Range_window by lia. rewrite !SignExtend_char by lia. rewrite Mul_char by lia.
   rewrite trunc_mul_l, trunc_mul_r by lia. rewrite !trunc_mod by lia.
@@ -155,7 +155,7 @@ Lemma fxmul_spec_nonneg af bf rf a b : wf af -> wf bf -> wf rf -> enc af a -> en
 Proof.
   intros Ha Hb Hr Ea Eb Hlow Hp. unfold mul_low in *. unfold enc, fxint in *.
   destruct (wf_width _ Ha) as [Hwa _], (wf_width _ Hb) as [Hwb _], (wf_width _ Hr) as [Hwr _].
-  unfold fxmul. cbv zeta. destruct (Z.ltb_spec (ffrac af + ffrac bf - ffrac rf) 0) as [Hc|_]; [lia|]. f_equal.
+  unfold fxmul, fxmul_v, mul_pw, fxmul_w. cbv zeta iota. destruct (Z.ltb_spec (ffrac af + ffrac bf - ffrac rf) 0) as [Hc|_]; [lia|]. f_equal.
   set (low := ffrac af + ffrac bf - ffrac rf) in *.
   rewrite Range_window by lia. rewrite !SignExtend_char by lia. rewrite Mul_char by lia.
   rewrite trunc_mul_l, trunc_mul_r by lia.
@@ -177,7 +177,7 @@ Lemma fxmul_wide_window_neg af bf rf a b : wf af -> wf bf -> wf rf -> enc af a -
 Proof.
   intros Ha Hb Hr Ea Eb Hlow Hwide Hp. unfold mul_low in *. unfold enc, fxint in *.
   destruct (wf_width _ Ha) as [Hwa _], (wf_width _ Hb) as [Hwb _], (wf_width _ Hr) as [Hwr _].
-  unfold fxmul. cbv zeta. destruct (Z.ltb_spec (ffrac af + ffrac bf - ffrac rf) 0) as [Hc|_]; [lia|].
+  unfold fxmul, fxmul_v, mul_pw, fxmul_w. cbv zeta iota. destruct (Z.ltb_spec (ffrac af + ffrac bf - ffrac rf) 0) as [Hc|_]; [lia|].
   set (low := ffrac af + ffrac bf - ffrac rf) in *.
   rewrite Range_window by lia. rewrite !SignExtend_char by lia. rewrite Mul_char by lia.
   rewrite trunc_mul_l, trunc_mul_r by lia.
@@ -212,9 +212,48 @@ Proof.
     assert (2 ^ 1 <= 2 ^ wr) by (apply pow2_le; lia). change (2 ^ 1) with 2 in *. lia.
 Qed.
 
+(* ---- any product width pw that holds both operands and the whole window: this is what the repair of C14-F1 relies on *)
+Lemma fxmul_w_spec pw af bf rf a b : wf af -> wf bf -> wf rf -> enc af a -> enc bf b ->
+  fwidth af <= pw -> fwidth bf <= pw ->
+  0 <= mul_low af bf rf -> mul_low af bf rf + fwidth rf <= pw ->
+  fxmul_w pw af bf rf a b = Some (spec_mul (fwidth af) (ffrac af) (fwidth bf) (ffrac bf) (fwidth rf) (ffrac rf) a b).
+Proof.
+  intros Ha Hb Hr Ea Eb Hpa Hpb Hlow Hwin. unfold mul_low in *. unfold enc in *.
+  destruct (wf_width _ Ha) as [Hwa _], (wf_width _ Hb) as [Hwb _], (wf_width _ Hr) as [Hwr _].
+  unfold fxmul_w. cbv zeta. destruct (Z.ltb_spec (ffrac af + ffrac bf - ffrac rf) 0) as [Hc|_]; [lia|]. f_equal.
+  set (low := ffrac af + ffrac bf - ffrac rf) in *.
+  rewrite Range_window by lia. rewrite !SignExtend_char by lia. rewrite Mul_char by lia.
+  rewrite trunc_mul_l, trunc_mul_r by lia.
+  rewrite !trunc_mod by lia.
+  unfold spec_mul, fxint. apply window_div; lia.
+Qed.
+
+(* repaired wiring: no guard on the top of the window *)
+Lemma fxmul_fixed_spec af bf rf a b : wf af -> wf bf -> wf rf -> enc af a -> enc bf b ->
+  0 <= mul_low af bf rf ->
+  fxmul_fixed af bf rf a b = Some (spec_mul (fwidth af) (ffrac af) (fwidth bf) (ffrac bf) (fwidth rf) (ffrac rf) a b).
+Proof.
+  intros Ha Hb Hr Ea Eb Hlow. unfold fxmul_fixed, fxmul_v, mul_pw.
+  destruct (wf_width _ Ha) as [Hwa _], (wf_width _ Hb) as [Hwb _].
+  apply fxmul_w_spec; try assumption; unfold mul_low in *; lia.
+Qed.
+
+Lemma fxmul_fixed_window_below af bf rf a b : mul_low af bf rf < 0 -> fxmul_fixed af bf rf a b = None.
+Proof.
+  intros H. unfold mul_low in H. unfold fxmul_fixed, fxmul_v, fxmul_w. cbv zeta.
+  destruct (Z.ltb_spec (ffrac af + ffrac bf - ffrac rf) 0); [reflexivity | lia].
+Qed.
+
+(* the repair changes nothing for configurations whose window already lies inside wa+wb bits *)
+Lemma fxmul_fixed_same af bf rf a b : mul_low af bf rf + fwidth rf <= fwidth af + fwidth bf ->
+  fxmul_fixed af bf rf a b = fxmul af bf rf a b.
+Proof.
+  intros H. unfold mul_low in H. unfold fxmul_fixed, fxmul, fxmul_v, mul_pw. rewrite Z.max_l by lia. reflexivity.
+Qed.
+
 Lemma fxmul_window_below af bf rf a b : mul_low af bf rf < 0 -> fxmul af bf rf a b = None.
 Proof.
-  intros H. unfold mul_low in H. unfold fxmul. cbv zeta.
+  intros H. unfold mul_low in H. unfold fxmul, fxmul_v, fxmul_w. cbv zeta.
   destruct (Z.ltb_spec (ffrac af + ffrac bf - ffrac rf) 0); [reflexivity | lia].
 Qed.
 
